@@ -521,6 +521,13 @@ def _fn_of_canon(fname, p, ctx, power=1):
         if sf is not None and sf[0] == "F" and sf[1] == "exp":
             inner = form_to_expr(ctx.forms[sf[2]], dict(enumerate(sf[3])))
             return raw(mul(num(sf[4] * power), inner), ctx)
+        if len(p) == 1:
+            (ff, nb), cc = next(iter(p.items()))
+            if nb == 0 and cc == 1 and len(ff) == 1 and ff[0][0] in ("A", "F") and ff[0][-1] == -1:
+                # log(1/f) = -log(f): valid whenever the left-hand side is defined
+                pos = ff[0][:-1] + (1,)
+                inner = _fn_of_canon("log", {((pos,), 0): Fraction(1)}, ctx, 1)
+                return {k2: -power * v2 for k2, v2 in inner.items()}
     if fname == "sqrt":
         if c is not None and c in (0, 1):
             return {_ONE_RAW: c} if c else {}
@@ -753,7 +760,7 @@ def simplify_mono(f, b, ctx):
         else:
             k = x
             pw = 1
-        kk = _merge_key(k)
+        kk = _merge_key(k, ctx)
         if kk not in merged:
             merged[kk] = [k, 0]
             order.append(kk)
@@ -792,8 +799,8 @@ def simplify_mono(f, b, ctx):
     return f2, b, coef
 
 
-def _merge_key(k):
-    """hashable identity key for factor merging (IVs by identity)"""
+def _merge_key(k, ctx=None):
+    """hashable identity key for factor merging (IVs by identity; symmetric slots in canonical order)"""
     def ik(i):
         if isinstance(i, IV):
             return ("v", i.id)
@@ -803,7 +810,13 @@ def _merge_key(k):
             return ("app", i[1], tuple(ik(a) for a in i[2]))
         return i
     if k[0] == "A":
-        return ("A", k[1], tuple(ik(i) for i in k[2]))
+        idx = [ik(i) for i in k[2]]
+        if ctx is not None:
+            for g in ctx.sym.get(k[1], []):
+                vals = sorted((idx[p] for p in g), key=repr)
+                for p, v in zip(g, vals):
+                    idx[p] = v
+        return ("A", k[1], tuple(idx))
     if k[0] == "N":
         return ("N", str(k[1]))
     if k[0] == "F":
